@@ -98,8 +98,10 @@ def make_replay(task, obl, ev, concrete_src=None):
     w('from pyvc.rt import _mk, Struct')
     w('try:\n    from contracts.specfn import *\nexcept ImportError:\n    pass')
     w('ns = dict(vars(M)); ns.update({k: v for k, v in globals().items() if not k.startswith("__")})')
+    prelude = []
     if concrete_src is not None:
-        srcs = concrete_src
+        srcs = dict(concrete_src)
+        prelude = srcs.pop('__prelude__', [])
     else:
         srcs = {}
         for n, sh in task.inst.items():
@@ -107,6 +109,23 @@ def make_replay(task, obl, ev, concrete_src=None):
             if isinstance(sh, Shared):
                 continue
             srcs[n] = sh.native(n, ev)
+    from .contract import Shared as _Sh
+    for pre in prelude:
+        # history: an earlier call of the same real function in this process (outcome ignored)
+        w('# earlier call in the same process (history): its outcome is ignored')
+        w('pargs = {}')
+        for n, s in pre.items():
+            w(f'pargs[{n!r}] = eval({s!r}, ns)')
+        for n, sh in task.inst.items():
+            if isinstance(sh, _Sh):
+                w(f'pargs[{n!r}] = pargs[{sh.other!r}]')
+        if c.setup is not None and getattr(c.setup, 'native_src', None):
+            w(c.setup.native_src.replace('args', 'pargs'))
+        w('try:')
+        w(f'    ({f})(*[pargs[n] for n in {given!r}])')
+        w('except Exception as e:')
+        w('    pass')
+        w('print("REPLAY: earlier call made with:", {k: repr(v)[:120] for k, v in pargs.items()})')
     w('args = {}')
     for n, s in srcs.items():
         w(f'args[{n!r}] = eval({s!r}, ns)')
@@ -130,7 +149,7 @@ def make_replay(task, obl, ev, concrete_src=None):
     kind = obl.kind
     clause = obl.note or 'True'
     olds = []
-    if kind in ('post',) and obl.note:
+    if (kind in ('post',) or kind.startswith('exc-post:')) and obl.note:
         clause, olds = rewrite_old(obl.note)
     w('old_ns = dict(vars(M)); old_ns.update({k: v for k, v in globals().items() if not k.startswith("__")}); '
       'old_ns.update(old_args)')
@@ -159,6 +178,15 @@ def make_replay(task, obl, ev, concrete_src=None):
         excs = list(c.raises)
         w(f'    violated = type(outcome[1]).__name__ not in {excs!r} and not any(k.__name__ in {excs!r} '
           f'for k in type(outcome[1]).__mro__)')
+    elif kind.startswith('exc-post:'):
+        en = kind.split(':', 1)[1]
+        w(f'if outcome[0] == "raise" and any(k.__name__ == {en!r} for k in type(outcome[1]).__mro__):')
+        w('    ns["exc"] = outcome[1]')
+        w('    try:')
+        w(f'        ok = bool(eval({clause!r}, ns))')
+        w('    except Exception as e:')
+        w('        ok = False; print("REPLAY: clause raised", repr(e))')
+        w('    violated = not ok')
     elif kind == 'raises':
         excs = list(c.raises)
         conds = {k: v for k, v in c.raises.items() if v is not None}
